@@ -24,8 +24,13 @@ def parseImpl (impl : String) : Option (V × Nat × List String) :=
     pure (v, s, if a == "-" then [] else a.splitOn ",")
   | _ => none
 
+/-- `clonem <Method> …` is a `clone` through another copy constructor: same model, same spec -/
+def normalize : List String → List String
+  | ["clonem", _, name, seed, v] => ["clone", name, seed, v]
+  | ws => ws
+
 def step (d : D) (op impl : String) : D × DrvOut :=
-  match words op with
+  match normalize (words op) with
   | ["reset", name, tyS] =>
     match parseTyAll tyS with
     | none => ({}, { model := "bad-op", spec := "FAIL unparsable type tree" })
@@ -33,8 +38,6 @@ def step (d : D) (op impl : String) : D × DrvOut :=
       let spec :=
         if !subject name then "ok"
         else if noUnhandled ci ty then "ok"
-        else if noUnhandled true ty then
-          "KNOWN iface-shared the type tree of " ++ name ++ " reaches references through an interface-typed field (OptionalPath.Values) and deepClone has no reflect.Interface case: copies share those cells with the original"
         else "FAIL type tree of " ++ name ++ " contains a chan/func/array/unknown-interface node reachable through settable fields: deepClone cannot copy it"
       ({ name, ty := some ty }, { model := "ok", spec })
   | ["clone", name, _, vS] =>
@@ -70,10 +73,7 @@ def step (d : D) (op impl : String) : D × DrvOut :=
           | some s => if s.2 < n then "changed=1" else "changed=0"
           | none => "no-such-slot"
         let spec :=
-          if impl == "changed=1" then
-            if slot.toList.contains '!' then
-              "KNOWN iface-shared a rejected PatchPath on the copy changed the running configuration (slot " ++ slot ++ " lives in a cell shared through an interface-typed field)"
-            else "FAIL a rejected edit of the copy changed the running configuration"
+          if impl == "changed=1" then "FAIL a rejected edit of the copy changed the running configuration (slot " ++ slot ++ ")"
           else "ok"
         (d, { model, spec })
     | _, _ => (d, { model := "bad-op", spec := "FAIL unparsable value or missing reset" })
